@@ -13,6 +13,7 @@ import json
 import os
 
 from harness import core, tables_io
+from harness import objs
 from harness import coder_io as C
 
 
@@ -235,7 +236,7 @@ def corpus_decode(drv, path, compiled=None):
     k = raw.find(b'BUFR')
     b = raw[k:]
     try:
-        msg = Decoder(compiled_template_cache_max=compiled).process(b, wire_template_data=False)
+        msg = objs.decoder(compiled_template_cache_max=compiled).process(b, wire_template_data=False)
     except Exception as e:  # noqa
         return None, {'skipped': core.err_tag(e)}
     b = msg.serialized_bytes
